@@ -95,6 +95,17 @@ CLAIMED = {
             "DESIGN.md §3 C16"),
 }
 
+CLAIMED["C04"] = ("fault_enumeration",
+    "Per run one small valid checksummed snapshot (own RDB encoder, every encoding of C03) and one replay configuration (RESTORE or native commands, 1-4 workers, pipe size, chunk threshold, plain or bidirectional) are replayed once fault-free under a seeded schedule; then ONE fault per sub-evaluation is enumerated over the recorded run: truncation at every length, a single-byte alteration (three masks) at every byte the checksum covers, a target error (-ERR/-OOM/-LOADING/-READONLY) at every request, cancellation / connection loss / crash at every scheduler step — in particular after the last snapshot byte was parsed while workers still hold queued entries. Oracle: if the target does not hold the whole dataset afterwards, Send must have returned an error and the resume position must never be written (watched for 5 virtual seconds after the return); damaged input must end in an error, not a panic, a hang (60 virtual seconds) or a process death.",
+    "Trusted: rdbgen encoder, the double's command semantics, the C03 dataset comparison. Snapshots are small (<= 8 KiB, <= 40 keys) so that enumeration is exhaustive for most; source loss through the real RedisInput/channel, restart of a next incarnation and cluster targets are not modelled here (C06/C02 cover resume after restart).",
+    "deterministic simulation + exhaustive single-fault enumeration over a recorded run (truncation lengths, byte alterations, target errors, cancel/sever/crash steps)",
+    "DESIGN.md §3 C04")
+CLAIMED["C20"] = ("exploration",
+    "The C03 replay into a PRE-POPULATED target: a drawn subset of the snapshot's keys already exists with an old value (same type overlapping / disjoint, another type, identical; with or without expiry) plus bystander keys; key-exists policy replace / ignore / error; RESTORE and native-command paths including the too-old-target fallback, hash values split into several chunks, 1-4 workers, plain and bidirectional replay. Oracle from the property text: replace => the target equals the snapshot (any residue is a violation); ignore => every pre-existing key keeps value, type and expiry and NO successful write was executed on it, and the replay does not fail because of it; error => the replay stops with an error before that key is modified; bystanders untouched.",
+    "Trusted: rdbgen, the double's semantics (RESTORE BUSYKEY/REPLACE, MULTI/EXEC, WRONGTYPE), request log attribution of writes to keys. Cluster targets, ReplaceHashTag and bidirectional replay with more than one worker are not generated.",
+    "deterministic simulation (scheduler-ordered parallel workers) + per-key before/after and write-log oracle",
+    "DESIGN.md §3 C20")
+
 NOT_APPLICABLE = {
     "C11": "pure function of a byte string: no schedule, clock, fault, I/O or second party can influence it, so deterministic simulation has nothing to decide (DESIGN.md §4); slot disagreements surface as a by-product in the C10/C18 oracles which compute HASH_SLOT independently",
 }
